@@ -44,7 +44,7 @@ const OPS: &[u8] = &[
     0x92, 0x93, 0x9a, 0x9b, 0x9c, 0x9d, 0xa6, 0xa8, 0xa9, 0xaa, 0xac, 0xad, 0xae, 0xaf, 0xb1, 0xb2, 0xba, 0xff, 0x01, 0x14, 0x20, 0x21, 0x41, 0x4b,
 ];
 
-pub const N_SCRIPT_STRESS: u64 = 40 + (N_DEEP_SHAPES * DEEP_DEPTHS.len()) as u64;
+pub const N_SCRIPT_STRESS: u64 = 40 + (N_DEEP_SHAPES * DEEP_DEPTHS.len()) as u64 + N_NUM_SCRIPTS as u64;
 
 // ---- deep nesting through EVERY child position of every fragment with children ----
 // A shape is (label, prefix, core, suffix): the script is prefix^n core suffix^n, type-correct
@@ -160,7 +160,59 @@ pub fn if_depth(b: &[u8]) -> usize {
     max
 }
 
+// ---- large script numbers where the decoder reads a COUNT (k of multi / multi_a / thresh, n of
+// multi): `<k> NUMEQUAL`, `<k> <keys..> <n> CHECKMULTISIG`, `<k> EQUAL`, with and without the
+// keys / children present; k in minimal script-number encoding
+pub const NUM_KS: [u32; 9] = [0, 1, 20, 21, 999, 1000, 1 << 16, 1 << 24, 0x7fff_ffff];
+pub const NUM_SHAPES: usize = 8;
+pub const N_NUM_SCRIPTS: usize = NUM_SHAPES * NUM_KS.len();
+
+pub fn push_num(n: u32) -> Vec<u8> {
+    match n {
+        0 => vec![0x00],
+        1..=16 => vec![0x50 + n as u8],
+        _ => {
+            let mut v = Vec::new();
+            let mut x = n;
+            while x > 0 {
+                v.push((x & 0xff) as u8);
+                x >>= 8;
+            }
+            if v.last().map(|b| b & 0x80 != 0).unwrap_or(false) {
+                v.push(0);
+            }
+            let mut out = vec![v.len() as u8];
+            out.extend(v);
+            out
+        }
+    }
+}
+
+pub fn num_script(w: &RWorld, ctx: usize, j: usize) -> (Vec<u8>, &'static str) {
+    let tap = ctx == 3;
+    let (shape, k) = (j / NUM_KS.len(), NUM_KS[j % NUM_KS.len()]);
+    let key = |i: usize| -> Vec<u8> {
+        let kb = w.w.key_bytes(i, tap);
+        [&[kb.len() as u8][..], &kb].concat()
+    };
+    let kn = push_num(k);
+    match shape {
+        0 => ([kn, vec![0x9c]].concat(), "count-numequal-bare"),
+        1 => ([key(0), vec![0xac], key(1), vec![0xba], kn, vec![0x9c]].concat(), "count-multi_a-2-keys"),
+        2 => ([kn, vec![0x9c, 0x69, 0x51]].concat(), "count-numequalverify-then-1"),
+        3 => ([kn.clone(), key(0), key(1), vec![0x52, 0xae]].concat(), "count-multi-k-2-keys"),
+        4 => ([kn.clone(), push_num(k), vec![0xae]].concat(), "count-multi-k-n-no-keys"),
+        5 => ([vec![0x51], key(0), kn, vec![0xae]].concat(), "count-multi-n-1-key"),
+        6 => ([kn, vec![0x87]].concat(), "count-equal-bare"),
+        _ => ([key(0), vec![0xac, 0x7c], key(1), vec![0xac, 0x93], kn, vec![0x87]].concat(), "count-thresh-2-children"),
+    }
+}
+
 fn stress_script(w: &RWorld, ctx: usize, k: u64) -> (Vec<u8>, &'static str) {
+    let deep_end = 40 + (N_DEEP_SHAPES * DEEP_DEPTHS.len()) as u64;
+    if k >= deep_end {
+        return num_script(w, ctx, (k - deep_end) as usize);
+    }
     if k >= 40 {
         let j = (k - 40) as usize;
         let (shape, slot) = (j / DEEP_DEPTHS.len(), j % DEEP_DEPTHS.len());
